@@ -527,7 +527,7 @@ pub fn c05(ctx: &Ctx, rep: &mut Report) {
     ];
     let names = [
         "+", "-", "*", "/", "%", "<", ">", "<=", ">=", "==", "!=", "&", "|", "add", "sub", "mul", "div", "mod", "le", "ge", "lt", "gt", "eq", "neq", "and", "or", "get", "set",
-        "foo", "", "Add", "=", "not",
+        "foo", "", "Add", "=", "not", "length", "size", "len", "push", "pop", "clone", "to_string", "equals", "neg", "abs", "xor", "ne", "lte", "gte", "GET", "Set", "get ", "+ ", "++", "=>", "<>", "&&", "||", "^", "!", "~",
     ];
     let arg_sets: Vec<Vec<ArgK>> = vec![
         vec![],
